@@ -17,17 +17,21 @@ pub fn check(shape: &Shape, value: &Value, l: &mut Local) -> CaseResult {
     match reference {
         Err(EncErr::UnknownLength) => {
             l.class("unknown-length");
-            if got_alloc != Err(postcard::Error::SerializeSeqLengthUnknown) {
+            // "refused with an error": which kind is not prescribed (upstream: SerializeSeqLengthUnknown)
+            if got_alloc == Err(postcard::Error::SerializeSeqLengthUnknown) {
+                l.class("unknown-length-refused-with-SerializeSeqLengthUnknown");
+            }
+            if got_alloc.is_ok() {
                 return Err(fail(
                     "wire",
-                    format!("value with a seq/map of unknown length: expected Err(SerializeSeqLengthUnknown), got {:?}", got_alloc.map(|b| hex(&b))),
+                    format!("value with a seq/map of unknown length: expected an error, got {:?}", got_alloc.map(|b| hex(&b))),
                     cj(),
                 ));
             }
             let mut buf = vec![0u8; 4096];
             let got_slice = no_panic(|| postcard::to_slice(&t, &mut buf).map(|s| s.len()))
                 .map_err(|p| fail("wire", format!("to_slice panicked: {}", p), cj()))?;
-            if got_slice != Err(postcard::Error::SerializeSeqLengthUnknown) {
+            if got_slice.is_ok() {
                 return Err(fail("wire", format!("to_slice on unknown-length value: {:?}", got_slice), cj()));
             }
             l.nontrivial(&(shape, "unknown-length", format!("{:?}", value)));
